@@ -2649,10 +2649,10 @@ bn_sqrt1(bn_p bn) {
 	BN_RET_ON_ERR(bn_init(&res, bits));
 	BN_RET_ON_ERR(bn_init(&bit, bits));
 	BN_RET_ON_ERR(bn_init(&tmp, bits));
-	BN_RET_ON_ERR(bn_assign_2exp(&bit, (bits - bn_clz(bn))));
-	while (bn_cmp(&bit, bn) > 0) {
-		bn_r_shift(&bit, 2);
-	}
+	if (0 != bn_is_zero(bn))
+		return (0);
+	/* The highest power of four <= bn. */
+	BN_RET_ON_ERR(bn_assign_2exp(&bit, ((bn_calc_bits(bn) - 1) & ~((size_t)1))));
 
 	while (0 == bn_is_zero(&bit)) {
 		BN_RET_ON_ERR(bn_assign(&tmp, &res));
